@@ -34,7 +34,8 @@ go build -tags verif -overlay "$S/overlay-check.json" -ldflags=-checklinkname=0 
 
 [ -f /verif/KNOWN_FINDINGS.jsonl ] && cp /verif/KNOWN_FINDINGS.jsonl "$S/vd/"
 echo "== check with mutation $NAME ($TIER)"
-VERIF_DIR="$S/vd" "$S/vevm" C16 -tier "$TIER" -evidence "$S/evidence.json" > "$S/check.out" 2>&1
+# a generous internal deadline: the verdict must not depend on how busy the machine is (idle: quick = ~40 s)
+VERIF_DIR="$S/vd" "$S/vevm" C16 -tier "$TIER" -budget "${C16_DEMO_BUDGET:-30m}" -evidence "$S/evidence.json" > "$S/check.out" 2>&1
 RC=$?
 grep -E "^VIOLATION|^  signature|^  what" "$S/check.out" | cut -c1-260 | head -12
 tail -1 "$S/check.out"
